@@ -62,6 +62,10 @@ func keyName(i int) []byte {
 		return []byte{}
 	case 5:
 		return []byte{0xff, 0x80, 0x01}
+	case 6:
+		return []byte{0xca, 0x01, 0xb2, 0xe0, 0x5c, 0x79, 0x24, 0x8b} // keys 6 and 7: same 32-bit FNV-1 hash (0x4e9a355a), hence the same chunk for every chunk count
+	case 7:
+		return []byte{0x44, 0x79, 0xca, 0xa2, 0x38, 0xb7, 0x74, 0xe5}
 	}
 	if i >= 20 {
 		return []byte(fmt.Sprintf("k%05d", i)) // large-population histories
@@ -172,6 +176,9 @@ func (comp) Gen(prop string, rng *rand.Rand, tier string) *core.History {
 			var ks []string
 			for j := 0; j < n; j++ {
 				ks = append(ks, core.B(pickKey()))
+			}
+			if nkeys >= 8 && core.Chance(rng, 1, 6) {
+				ks = append(ks, core.B(keyName(6)), core.B(keyName(7))) // two different keys with one 32-bit hash in ONE batch
 			}
 			h.Add(opImmunize, "ImmunizeKeys", core.L(ks...))
 		case r < 52+immW+12:
